@@ -96,16 +96,22 @@ func solveObligation(vc *VC, o *Obligation, dir string, idx int, timeoutS, seed 
 		if to > 20 {
 			to = 20
 		}
-		r := solveOnce(vc, o, dir, idx, to, seed, needAgree, only, true)
+		r := solveOnce(vc, o, dir, idx, to, seed, needAgree, only, 1)
 		if r.Status == "discharged" {
 			r.Solver += "(floats-abstracted)"
 			return r
 		}
+		// pass 2: only the float operations since the previous cut point are exact
+		r = solveOnce(vc, o, dir, idx, timeoutS, seed, needAgree, only, 2)
+		if r.Status == "discharged" {
+			r.Solver += "(stage-floats)"
+			return r
+		}
 	}
-	return solveOnce(vc, o, dir, idx, timeoutS, seed, needAgree, only, false)
+	return solveOnce(vc, o, dir, idx, timeoutS, seed, needAgree, only, 0)
 }
 
-func solveOnce(vc *VC, o *Obligation, dir string, idx int, timeoutS, seed int, needAgree int, only string, abstractFloats bool) *SolveResult {
+func solveOnce(vc *VC, o *Obligation, dir string, idx int, timeoutS, seed int, needAgree int, only string, abstractFloats int) *SolveResult {
 	smt := vc.smtForOpt(o, true, abstractFloats)
 	res := &SolveResult{Obl: o, SMTBytes: len(smt), AllOut: map[string]string{}}
 	if len(smt) > maxSMTBytes {
